@@ -1003,4 +1003,41 @@ example : satisfiesBounds (.rv [-2, -(1 / 2)] [2, (1 / 2 : ℝ)])
     (projectedSample (.rv [-2, -(1 / 2)] [2, (1 / 2 : ℝ)]) lineProj (.rv [2, 1 / 2])) = true :=
   projected_sampler_inbounds (.rv [-2, -(1 / 2)] [2, (1 / 2 : ℝ)]) projected_sampler_clamp_first_fails.1 _ _
 
+/-! ### `RNG::uniformReal` on a pinned coordinate (`low == high`) -/
+
+/-- [EX] `uniformReal(a, a)` as coded — `(b - a) * u + a` — returns `a` EXACTLY for every draw, also with the two IEEE
+roundings explicit (`rm` for the product, `ra` for the sum): the only rounding facts used are `rm 0 = 0` and `ra a = a`
+(`a` is a double; `a - a = 0` is exact).  So a pinned coordinate (zero-width bound, any magnitude) is reproduced bit for
+bit and satisfies `satisfiesBounds`, whose tolerance is an ABSOLUTE `eps`.  The second part is the witness for seeded
+change s7 (`(1-u)*lo + u*hi`): under round-to-nearest on a 2⁻²² grid (halves up) the blend of `5` with itself at
+`u = 2⁻²³/5` is `5 + 2⁻²²`, one grid step off. -/
+theorem uniformReal_zero_width_exact (rm ra : ℝ → ℝ) (hrm0 : rm 0 = 0) (a u : ℝ) (hra : ra a = a) :
+    ra (rm ((a - a) * u) + a) = a ∧ uniformReal a a u = a ∧
+    rndGrid22 (rndGrid22 ((1 - 1 / 41943040) * 5) + rndGrid22 (1 / 41943040 * 5)) = 5 + 1 / 4194304 := by
+  refine ⟨by rw [sub_self, zero_mul, hrm0, zero_add, hra], by rw [uniformReal_val]; ring, ?_⟩
+  have h1 : rndGrid22 ((1 - 1 / 41943040) * 5) = 5 := by
+    unfold rndGrid22
+    have : ⌊((1 - 1 / 41943040 : ℝ) * 5) * 4194304 + 1 / 2⌋ = 20971520 := by
+      rw [Int.floor_eq_iff]; constructor <;> norm_num
+    rw [this]; norm_num
+  have h2 : rndGrid22 (1 / 41943040 * 5) = 1 / 4194304 := by
+    unfold rndGrid22
+    have : ⌊((1 / 41943040 : ℝ) * 5) * 4194304 + 1 / 2⌋ = 1 := by
+      rw [Int.floor_eq_iff]; constructor <;> norm_num
+    rw [this]; norm_num
+  rw [h1, h2]
+  unfold rndGrid22
+  have : ⌊((5 : ℝ) + 1 / 4194304) * 4194304 + 1 / 2⌋ = 20971521 := by
+    rw [Int.floor_eq_iff]; constructor <;> norm_num
+  rw [this]; norm_num
+
+-- non-vacuity: exact arithmetic (`id`) and the grid rounding both keep 0 and the grid point 5
+example : rndGrid22 (rndGrid22 ((5 - 5) * (3 / 10)) + 5) = 5 := by
+  have h0 : rndGrid22 0 = 0 := by unfold rndGrid22; norm_num
+  have h5 : rndGrid22 5 = 5 := by
+    unfold rndGrid22
+    have : ⌊(5 : ℝ) * 4194304 + 1 / 2⌋ = 20971520 := by rw [Int.floor_eq_iff]; constructor <;> norm_num
+    rw [this]; norm_num
+  exact (uniformReal_zero_width_exact rndGrid22 rndGrid22 h0 5 (3 / 10) h5).1
+
 end OmplModel.SpaceBounds.C08
